@@ -26,10 +26,12 @@ ADMIN = '/etc/containers/systemd'
 def gen_tree(rnd):
     """relative directories below the admin directory"""
     dirs = {''}
+    # (a fifth of the administrator's trees have no users/ at all — the usual state of a machine)
+    p_users = 0.8 if rnd.random() < 0.8 else 0.0
     for _ in range(rnd.randint(2, 9)):
         depth = rnd.randint(1, 4)
         parts = []
-        if rnd.random() < 0.8:
+        if rnd.random() < p_users:
             parts.append('users')
         for _ in range(depth):
             parts.append(rnd.choice(NAMES))
@@ -165,7 +167,7 @@ def oracle(ctx):
             with open(os.path.join(p, name), 'w') as f:
                 f.write(f'[Container]\nImage=localhost/i\nEnvironment=ORIGIN={tag}\n')
             marks[tag] = (label, d)
-            if label == 'adm' and rnd.random() < 0.5:
+            if label == 'adm' and rnd.random() < 0.5 and any(x.split('/')[0] == 'users' for x in tree):
                 # a drop-in directory for this unit in a place that is not among the directories its generator searches: for a unit below
                 # users/ the administrator's top directory (or another user's), for a system unit somewhere below users/
                 inside = d == 'users' or d.startswith('users/')
@@ -221,8 +223,12 @@ def oracle(ctx):
         fails = []
         want_root = {t for t, (lab, d) in marks.items() if lab in ('distro', 'run') or (lab == 'adm' and not (d == 'users' or d.startswith('users/')))}
         want_user = {t for t, (lab, d) in marks.items() if lab in ('xdg', 'xdgrun') or (lab == 'adm' and may_read_user(uid, d))}
-        if r0[0] not in (0, 1) or ru[0] not in (0, 1):
-            fails.append(f'exit status {r0[0]} / {ru[0]}: {r0[2][-200:]} {ru[2][-200:]}')
+        # every staged unit is valid, so nothing fails — also where a directory the generator searches does not exist (a tree without users/:
+        # D24, every user generator exited 1 there)
+        for what, r in (('system generator', r0), (f'user generator of uid {uid}', ru), ('user generator of uid 0', ru0), ('user generator with another effective uid', rue),
+                        ('generator started as podman-user-generator', run_name), (f'user generator with XDG_RUNTIME_DIR {how}', run_noxdg)):
+            if r[0] != 0:
+                fails.append(f'{what}: exit status {r[0]} although no file failed to load or convert: {r[2][-300:]}')
         if r0[1] != want_root:
             fails.append(f'the system generator read {sorted(r0[1])}, permitted and expected {sorted(want_root)}')
         if ru[1] != want_user:
